@@ -26,15 +26,19 @@ META = {
                   ('melodies_lib', 'Melody.transpose'),
                   ('melodies_lib', 'Melody.squash'),
                   ('chords_lib', 'ChordProgression.transpose'),
-                  ('lead_sheets_lib', 'LeadSheet.transpose')],
+                  ('lead_sheets_lib', 'LeadSheet.transpose'),
+                  ('lead_sheets_lib', 'LeadSheet.squash'),
+                  ('melodies_lib', 'Melody.get_major_key')],
     'assumptions': [
         'pitches 0..127, k in -127..127, allowed range within 0..127',
         'total_time after transposition is only required to cover the kept '
         'notes (the statement\'s "all times alone" is read as note/event times)',
         'chord symbols come from a grid assembled from the module\'s own root '
         'and kind tables (concrete strings), k symbolic',
-        'Melody.squash with a target key (numpy histogram, float rounding) is '
-        'outside the claim',
+        'Melody.squash / LeadSheet.squash with a target key: only "every '
+        'note moves by the RETURNED amount mod 12 into [min,max), chords by '
+        'the same amount" is required; which key the heuristic picks is not '
+        'part of the property (key histogram and argmax run through np-lite)',
     ],
     'bounds': {
         'quick': 'N<=2 notes; melody length <=2; 40 chord symbols; alter in '
@@ -42,7 +46,7 @@ META = {
         'thorough': 'N<=3; melody length <=4; ~700 chord symbols (35 roots x '
                     'first abbreviation of every kind x modifications x bass)',
     },
-    'outside': ['squash to a key', 'longer melodies / more notes'],
+    'outside': ['which key squash picks', 'longer melodies / more notes'],
 }
 
 
@@ -256,6 +260,45 @@ def h_progression(c):
               'lead sheet chord root moved by k mod 12')
 
 
+def h_squash(c):
+  """Melody.squash / LeadSheet.squash to a target key: every note moves by the
+  returned amount modulo 12 and lands in [min, max), specials stay, the lead
+  sheet's chords move by the same amount (key histogram / argmax via
+  np-lite)."""
+  ml = c.mod('melodies_lib')
+  cl = c.mod('chords_lib')
+  ls = c.mod('lead_sheets_lib')
+  cs = c.mod('chord_symbols_lib')
+  L = c.params['L']
+  ev = [c.int('e%d' % i, -2, 127) for i in range(L)]
+  key = c.int('key', 0, 11)
+  lo = c.int('lo', 0, 116)
+  hi = c.int('hi', 12, 128)
+  c.assume(hi - lo >= 12)
+  m = ml.Melody(list(ev))
+  ev = list(m)
+  amt = m.squash(lo, hi, key)
+  res = list(m)
+  c.check(len(res) == L, 'length unchanged')
+  for e, r in zip(ev, res):
+    c.check(c.If(e < 0, c.eq(r, e),
+                 c.And(r >= lo, r < hi, c.eq((r - e - amt) % 12, 0))),
+            'specials untouched; notes moved by the returned amount mod 12 '
+            'into [min,max)')
+  figs = c.params.get('figures')
+  if figs:
+    sheet = ls.LeadSheet(ml.Melody(list(ev)),
+                         cl.ChordProgression(list(figs[:L])))
+    amt2 = sheet.squash(lo, hi, key)
+    c.check(c.eq(amt2, amt), 'lead sheet squash moves by the melody amount')
+    kk = c.concretize(amt2 % 12)
+    for f, g in zip(figs, list(sheet.chords)):
+      if f != 'N.C.':
+        c.check(cs.chord_symbol_root(g) == (cs.chord_symbol_root(f) + kk) % 12,
+                'lead sheet chords moved by the same amount mod 12')
+  c.cover('a real transposition', c.Not(c.eq(amt % 12, 0)))
+
+
 def h_clamp(c):
   sl = c.mod('sequences_lib')
   amt = c.int('amt', -127, 127)
@@ -321,6 +364,7 @@ HARNESSES = {
     'h_melody': h_melody,
     'h_progression': h_progression,
     'h_clamp': h_clamp,
+    'h_squash': h_squash,
     'h_augment': h_augment,
 }
 
@@ -373,6 +417,8 @@ def jobs(tier):
   for L in (1, 2):
     add('h_melody', L=L)
   add('h_progression', figures=['C', 'N.C.'])
+  add('h_squash', L=1, figures=['Am'])
+  add('h_squash', L=2, figures=['C', 'F#m7/A'], budget=900)
   add('h_progression', figures=['F#m7/A', 'Bb13'])
   add('h_clamp')
   add('h_augment', N=1)
